@@ -16,6 +16,12 @@ structure St where
   catc : CatCfg := CatCfg.good
   topoc : TopoCfg := TopoCfg.good
   pd : PD := []
+  /-- what pd/storage holds (`SaveRegion` = put by id, `DeleteRegion` = delete by id) -/
+  pddisk : PD := []
+  /-- a heartbeat's persist step failed earlier in this run: memory and disk may have diverged -/
+  pdDirty : Bool := false
+  /-- RegionHeartbeat keeps the accepted region in memory when SaveRegion fails (as the code does) -/
+  pdKeepsOnFail : Bool := true
   cat : Catalog := []
   initCat : Catalog := []
   removed : List Meta := []
@@ -62,6 +68,7 @@ def setCfg (st : St) (kv : String) : Option St :=
     | "pd.staleVerOp" => do let o ← CmpOp.ofString? v; pure { st with pdc := { st.pdc with staleVerOp := o } }
     | "pd.staleConfOp" => do let o ← CmpOp.ofString? v; pure { st with pdc := { st.pdc with staleConfOp := o } }
     | "pd.overlapOp" => do let o ← CmpOp.ofString? v; pure { st with pdc := { st.pdc with overlapOp := o } }
+    | "pd.failedPersistKeepsMemory" => do let b ← boolOfString? v; pure { st with pdKeepsOnFail := b }
     | "pd.lookupEndOp" => do let o ← CmpOp.ofString? v; pure { st with pdc := { st.pdc with lookupEndOp := o } }
     | "cmd.keyStartOp" => do let o ← CmpOp.ofString? v; pure { st with cmdc := { st.cmdc with keyStartOp := o } }
     | "cmd.keyEndOp" => do let o ← CmpOp.ofString? v; pure { st with cmdc := { st.cmdc with keyEndOp := o } }
@@ -141,11 +148,26 @@ def step (st : St) (toks : List String) : St × String :=
     | some m =>
       let (pd', r) := upsert st.pdc st.pd m
       let spec := if hbMustReject st.pd m then "rej:*" else "*"
-      ({ st with pd := pd' }, (if r == .ok then "ok" else "rej:" ++ r.str) ++ "\t" ++ spec)
+      let disk' := if r == .ok then st.pddisk.filter (fun o => o.id ≠ m.id) ++ [m] else st.pddisk
+      ({ st with pd := pd', pddisk := disk' }, (if r == .ok then "ok" else "rej:" ++ r.str) ++ "\t" ++ spec)
+    | none => (st, "bad-op")
+  | ["pd.hbfail", i, a, b, v, c] =>
+    -- the same heartbeat, but the write to pd/storage fails: the caller gets an error; the code
+    -- keeps what the in-memory catalog accepted (a later heartbeat persists it)
+    match parseMeta? s!"{i}:{a}:{b}:{v}:{c}" with
+    | some m =>
+      let (pd', r) := upsert st.pdc st.pd m
+      let spec := "rej:*"      -- never acknowledged: the write to storage failed (or the heartbeat was refused)
+      if r == .ok then
+        let mem := if st.pdKeepsOnFail then pd' else (remove pd' m.id).1
+        ({ st with pd := mem, pdDirty := true }, "rej:persist\t" ++ spec)
+      else (st, "rej:" ++ r.str ++ "\t" ++ spec)
     | none => (st, "bad-op")
   | ["pd.rm", i] =>
     match natOf? i with
-    | some i => let (pd', r) := remove st.pd i; ({ st with pd := pd' }, toString r ++ "\t*")
+    | some i =>
+      let (pd', r) := remove st.pd i
+      ({ st with pd := pd', pddisk := if r then st.pddisk.filter (fun o => o.id ≠ i) else st.pddisk }, toString r ++ "\t*")
     | none => (st, "bad-op")
   | ["pd.get", k] =>
     match bytesOf? k with
@@ -153,14 +175,26 @@ def step (st : St) (toks : List String) : St × String :=
       let r := match lookup st.pdc st.pd k with
         | some m => toString m.id
         | none => "none"
-      (st, r ++ "\t" ++ idsStr (specLookup st.pd k))
+      -- after a failed persist a lookup may answer from the accepted (memory) or the durable version;
+      -- the durable set may by then hold stale, overlapping records (they were never validated
+      -- against each other): no claim when it does not name at most one region for the key
+      let disk := specLookup st.pddisk k
+      let spec := if !st.pdDirty then idsStr (specLookup st.pd k)
+        else if disk.length ≤ 1 then
+          (if idsStr disk != idsStr (specLookup st.pd k) then idsStr (specLookup st.pd k) ++ "|" ++ idsStr disk
+           else idsStr (specLookup st.pd k))
+        else "*"
+      (st, r ++ "\t" ++ spec)
     | none => (st, "bad-op")
   | ["pd.snap"] => (st, snapStr false st.pd ++ "\t*")
   | ["pd.restart"] =>
     -- cmd/nokv/pd.go: load the persisted regions and re-upsert them in id order
-    -- reply = catalog after the restart; spec = catalog before it ("reloads identically")
-    let pd' := restart st.pdc st.pd
-    ({ st with pd := pd' }, snapStr false pd' ++ "\t" ++ snapStr false st.pd)
+    -- reply = catalog after the restart; spec = catalog before it ("reloads identically"),
+    -- unless a persist step failed since the last restart (fault: outside the statement)
+    -- (the flag stays set: records the fault left on disk can resurface at later restarts)
+    let pd' := restart st.pdc st.pddisk
+    ({ st with pd := pd' },
+      snapStr false pd' ++ "\t" ++ (if st.pdDirty then "*" else snapStr false st.pd))
   -- ---------------- C25
   | ["cmd.validate", a, b, v, c, rv, rc, reqs] =>
     match parseMeta? s!"1:{a}:{b}:{v}:{c}", (splitList reqs ";").mapM parseReq? with
